@@ -134,4 +134,130 @@ Section Shift.
       all: repeat sim1.
     Qed.
   End Ops.
+
+  Section Run.
+    Variable cr : crypto.
+    Variable cx : context.
+
+    Definition rsim (r r' : res unit) : Prop :=
+      match r with
+      | ROk a s' => r' = ROk a (sh s')
+      | RErr e s' => (e = ERunLimitExceeded /\ runlimit s' = 0) \/ r' = RErr e (sh s')
+      end.
+
+    Lemma step_sim rc s :
+      (forall i, parse_op (prog s) (pc s) = inr i -> i_op i <> 192%N) ->
+      rsim (step cr cx rc s) (step cr cx rc (sh s)).
+    Proof.
+      intros Hno. unfold step. change (prog (sh s)) with (prog s). change (pc (sh s)) with (pc s).
+      destruct (parse_op (prog s) (pc s)) as [e|i] eqn:Hp; [right; reflexivity|].
+      specialize (Hno i eq_refl). cbv zeta.
+      set (s1 := set_nextpc s ((pc s + i_len i) mod two32)%N).
+      change (set_nextpc (sh s) ((pc s + i_len i) mod two32)%N) with (sh s1).
+      destruct (is_expansion (i_op i)).
+      - change (expres (sh s1)) with (expres s1). destruct (expres s1); [right; reflexivity|].
+        change (set_pc (sh s1) (nextpc (sh s1))) with (sh (set_pc s1 (nextpc s1))).
+        pose proof (sim_apply_cost 1 (set_pc s1 (nextpc s1))) as H. unfold sim in H. unfold rsim.
+        destruct (apply_cost 1 (set_pc s1 (nextpc s1))) as [[] s4|e s4]; exact H.
+      - set (s2 := set_vdata (set_deferred s1 0) (i_data i)).
+        change (set_vdata (set_deferred (sh s1) 0) (i_data i)) with (sh s2).
+        pose proof (exec_op_sim cr cx rc (i_op i) Hno s2) as H. unfold sim in H. unfold rsim.
+        destruct (exec_op cr cx rc (i_op i) s2) as [[] s3|e s3].
+        + rewrite H. change (deferred (sh s3)) with (deferred s3).
+          pose proof (sim_apply_cost (deferred s3) s3) as H2. unfold sim in H2.
+          destruct (apply_cost (deferred s3) s3) as [[] s4|e s4].
+          * rewrite H2. reflexivity.
+          * destruct H2 as [[He Hr]|H2]; [left; split; [exact He|exact Hr]|right; rewrite H2; reflexivity].
+        + destruct H as [H|H]; [left; exact H|right; rewrite H; reflexivity].
+    Qed.
+
+    Lemma no_cp_parse p pcv i : no_checkpredicate p -> parse_op p pcv = inr i -> i_op i <> 192%N.
+    Proof.
+      intros Hno Hp Hop. apply Hno. rewrite <- Hop, (parse_op_byte _ _ _ Hp). unfold byte_at.
+      apply nth_In. destruct (parse_op_bounds _ _ _ Hp). lia.
+    Qed.
+
+    Lemma run_sim f : forall s, 0 <= runlimit s -> no_checkpredicate (prog s) ->
+      rsim (run cr cx f s) (run cr cx f (sh s)).
+    Proof.
+      induction f as [|f IH]; intros s Hr Hno.
+      - right. reflexivity.
+      - rewrite !run_S. change (pc (sh s)) with (pc s). change (prog (sh s)) with (prog s).
+        destruct (pc s <? N.of_nat (length (prog s)))%N; [|reflexivity].
+        pose proof (step_sim (child_fn cr cx f) s (fun i Hp => no_cp_parse _ _ _ Hno Hp)) as Hs.
+        pose proof (step_spec cr cx anyerr (fun _ _ => Logic.I) (fun _ _ _ _ _ _ _ _ _ _ _ => Logic.I)
+                      (child_fn cr cx f) s (child_ok_run cr cx f) Hr) as Hsp.
+        unfold rsim in Hs. unfold step_post in Hsp.
+        destruct (step cr cx (child_fn cr cx f) s) as [[] s'|e s'].
+        + rewrite Hs. destruct Hsp as (Hr' & _ & Hprog & _). apply IH; [exact Hr'|rewrite Hprog; exact Hno].
+        + unfold rsim. destruct Hs as [Hs|Hs]; [left; exact Hs|right; rewrite Hs; reflexivity].
+    Qed.
+
+    Lemma push_all_sim (f : item -> bool -> M unit) l :
+      (forall x s, sim (f x false) s) -> forall s, sim (push_all f l) s.
+    Proof.
+      intros Hf. induction l as [|x l IH]; intros s; cbn [push_all]; [apply sim_ret|].
+      apply sim_bind; [apply Hf|]. intros. apply IH.
+    Qed.
+
+    Lemma init_pushes_sim statedata args s : sim (init_pushes statedata args) s.
+    Proof.
+      unfold init_pushes. apply sim_bind.
+      - apply push_all_sim. intros. apply sim_push_alt.
+      - intros. apply push_all_sim. intros. apply sim_push.
+    Qed.
+  End Run.
 End Shift.
+
+Theorem insufficient_dichotomy cr cx fuel statedata args L L' :
+  no_checkpredicate (cx_code cx) -> 0 <= L' <= L ->
+  let r := verify cr cx fuel statedata args L in
+  let r' := verify cr cx fuel statedata args L' in
+  r' = (0, Some ERunLimitExceeded) \/
+  (snd r' = Some EUnexpected /\ snd r = Some EUnexpected /\ fst r' = 0) \/
+  (snd r' = snd r /\ fst r = fst r' + (L - L')).
+Proof.
+  intros Hno HL. cbv zeta. rewrite !verify_unfold.
+  destruct (negb (cx_vmversion cx =? 1)%N).
+  { right. right. cbn. split; [reflexivity|lia]. }
+  set (d := L - L'). assert (Hd : 0 <= d) by (unfold d; lia).
+  set (s0 := init_state cx L').
+  assert (Hs0 : init_state cx L = shift d s0).
+  { unfold s0, init_state, shift, set_runlimit. simp_st. f_equal. unfold d. lia. }
+  rewrite Hs0.
+  pose proof (init_pushes_sim d Hd statedata args s0) as Hi. unfold sim in Hi.
+  pose proof (init_pushes_spec cx statedata args L' ltac:(lia)) as Hsp. fold s0 in Hsp.
+  destruct (init_pushes statedata args s0) as [a s1|e s1].
+  - rewrite Hi. destruct Hsp as (Hr1 & _ & Hprog & _).
+    pose proof (run_sim d Hd cr cx fuel s1 Hr1 ltac:(rewrite Hprog; exact Hno)) as Hr. unfold rsim in Hr.
+    destruct (run cr cx fuel s1) as [[] s|e s].
+    + rewrite Hr. right. right. cbn [fst snd]. split; [reflexivity|].
+      unfold shift. simp_st. fold d. lia.
+    + destruct Hr as [[-> Hz]|Hr].
+      * left. rewrite Hz. reflexivity.
+      * rewrite Hr. destruct e; try (right; right; cbn [fst snd]; split; [reflexivity|unfold shift; simp_st; fold d; lia]).
+        right. left. cbn. auto.
+  - destruct Hi as [[-> Hz]|Hi].
+    + left. rewrite Hz. reflexivity.
+    + rewrite Hi. right. right. cbn [fst snd]. split; [reflexivity|unfold shift; simp_st; fold d; lia].
+Qed.
+
+Theorem insufficient_fails cr cx fuel statedata args L L' :
+  no_checkpredicate (cx_code cx) -> 0 <= L' <= L ->
+  L' < L - fst (verify cr cx fuel statedata args L) ->
+  exists e, verify cr cx fuel statedata args L' = (0, Some e) /\
+            (e = ERunLimitExceeded \/ e = EUnexpected).
+Proof.
+  intros Hno HL Hlt.
+  pose proof (insufficient_dichotomy cr cx fuel statedata args L L' Hno HL) as H. cbv zeta in H.
+  pose proof (gas_range cr cx fuel statedata args L' ltac:(lia)) as Hg.
+  destruct H as [H|[(H1 & _ & H2)|(_ & H)]].
+  - exists ERunLimitExceeded. auto.
+  - exists EUnexpected. split; [|auto].
+    destruct (verify cr cx fuel statedata args L') as [g e]. cbn [fst snd] in *. subst. reflexivity.
+  - lia.
+Qed.
+
+(* the guard is satisfiable by real programs, e.g. the loop  1 DROP JUMP:0 *)
+Example no_cp_example : no_checkpredicate [81; 117; 99; 0; 0; 0; 0]%N.
+Proof. unfold no_checkpredicate. cbn. intros H. repeat (destruct H as [H|H]; [discriminate H|]). exact H. Qed.
